@@ -117,6 +117,24 @@ def run(R: vlib.Run):
         ("pack-order", lambda: bits.pack(np.zeros(8, dtype=np.uint8), 4, bitorder="xyz")),
         ("pack-bufsize", lambda: bits.pack(np.zeros(8, dtype=np.uint8), 4, np.zeros(5, dtype=np.uint8))),
     ]
+    # bit-order spellings: io/bits.py accepts exactly the strings whose first character is a lower-case 'b' or 'l';
+    # every other spelling (capitalised, padded, unrelated) is a wrong bit order and must be refused for unpack and pack
+    for i, sp in enumerate(["Big", "BIG", "B", "Little", "LITTLE", "L", " big", "msb", "x", "1", "Big-endian"]):
+        bad.append((f"unpack-order-spelling-{i}", lambda sp=sp: bits.unpack(np.arange(4, dtype=np.uint8), 2, bitorder=sp)))
+        bad.append((f"pack-order-spelling-{i}", lambda sp=sp: bits.pack(np.ones(8, dtype=np.uint8), 4, bitorder=sp)))
+    # accepted spellings select the order of their first letter
+    probe = np.array([0b00011011, 0b11100100], dtype=np.uint8)
+    for sp, big in (("b", True), ("big", True), ("bigendian", True), ("l", False), ("little", False), ("lsb", False)):
+        for nbits in (1, 2, 4):
+            R.case(("spelling", sp, nbits), regime="order_spelling")
+            try:
+                got = list(map(int, bits.unpack(probe, nbits, bitorder=sp)))
+                exp = [f for b_ in probe.tolist() for f in fields(b_, nbits, big)]
+                back = list(map(int, bits.pack(np.array(exp, dtype=np.uint8), nbits, bitorder=sp)))
+                if got != exp or back != probe.tolist():
+                    R.fail("order-spelling-dispatch", "an accepted bit-order spelling selects the wrong field order", {"bitorder": sp, "nbits": nbits, "got": got, "expected": exp})
+            except Exception as e:  # noqa: BLE001
+                R.fail("order-spelling-dispatch", f"an accepted bit-order spelling raised {type(e).__name__}", {"bitorder": sp, "nbits": nbits})
     for name, f in bad:
         R.case(("bad", name), regime="malformed")
         try:
